@@ -45,6 +45,10 @@ type Case struct {
 	// many bytes (requests and replies larger than common buffer sizes travel
 	// on the shared connection together with the other goroutines' traffic).
 	BigTag int `json:"big_tag,omitempty"`
+	// Churn: while the goroutines ask for proxies, another service keeps being
+	// registered and unregistered (the session's list of services is refreshed
+	// under their feet); it is never the one they ask for
+	Churn bool `json:"churn,omitempty"`
 }
 
 func genCase(t *rapid.T) Case {
@@ -62,6 +66,7 @@ func genCase(t *rapid.T) Case {
 		vt.Excluded("C19:server-queue-overflow")
 	}
 	c.BigTag = rapid.SampledFrom([]int{0, 0, 2100, 5000, 70000}).Draw(t, "bigtag")
+	c.Churn = rapid.Bool().Draw(t, "churn")
 	g := rapid.IntRange(2, maxG).Draw(t, "goroutines")
 	for i := 0; i < g; i++ {
 		n := rapid.IntRange(1, 4).Draw(t, "requests")
@@ -93,6 +98,19 @@ func checkCase(c Case) error {
 	dir, _ := os.MkdirTemp("", "c19")
 	defer os.RemoveAll(dir)
 	journal := &probe.Journal{}
+	// services registered before everything else: unregistering one of them
+	// later moves every other entry of a list ordered by age
+	var early []bus.Service
+	if c.Churn {
+		for k := 0; k < 8; k++ {
+			_, actor := probe.NewPong("early", journal)
+			svc, err := env.Server.NewService(fmt.Sprintf("Early%d", k), actor)
+			if err != nil {
+				return vt.Violationf("C19:setup", "NewService: %v", err)
+			}
+			early = append(early, svc)
+		}
+	}
 	var listeners []*hio.CountingListener
 	for k, n := range c.Servers {
 		addr := "unix://" + filepath.Join(dir, fmt.Sprintf("s%d", k))
@@ -175,9 +193,38 @@ func checkCase(c Case) error {
 			}
 		}(gi, reqs)
 	}
+	stopChurn := make(chan struct{})
+	churnDone := make(chan struct{})
+	if c.Churn {
+		go func() {
+			defer close(churnDone)
+			<-start
+			for k := 0; ; k++ {
+				select {
+				case <-stopChurn:
+					return
+				default:
+				}
+				if len(early) > 0 {
+					early[0].Terminate()
+					early = early[1:]
+					continue
+				}
+				_, actor := probe.NewPong("churn", journal)
+				svc, err := env.Server.NewService(fmt.Sprintf("Churn%d", k%3), actor)
+				if err != nil {
+					continue
+				}
+				time.Sleep(time.Duration(20*(k%5)) * time.Microsecond)
+				svc.Terminate()
+			}
+		}()
+	} else {
+		close(churnDone)
+	}
 	close(start)
 	done := make(chan struct{})
-	go func() { wg.Wait(); close(done) }()
+	go func() { wg.Wait(); close(stopChurn); <-churnDone; close(done) }()
 	select {
 	case <-done:
 	case <-time.After(bound):
@@ -202,6 +249,9 @@ func checkCase(c Case) error {
 	}
 	key, _ := json.Marshal(c)
 	labels := []string{fmt.Sprintf("servers=%d", len(c.Servers)), "transport=" + c.Transport}
+	if c.Churn {
+		labels = append(labels, "service-list-refreshed-meanwhile")
+	}
 	if contended {
 		labels = append(labels, "concurrent-dial-of-one-endpoint")
 	}
